@@ -14,7 +14,8 @@ ToSet(seq) == {seq[i] : i \in DOMAIN seq}
 Pairs(seq) == {<<seq[i][1], seq[i][2]>> : i \in DOMAIN seq}
 Triples(seq) == {<<seq[i][1], seq[i][2], seq[i][3]>> : i \in DOMAIN seq}
 CfgOf(r) == [agents |-> ToSet(r.agents), imported |-> ToSet(r.imported), targets |-> ToSet(r.targets),
-             rows |-> Pairs(r.rows), obs |-> Triples(r.obs), nsteps |-> r.nsteps]
+             rows |-> Pairs(r.rows), obs |-> Triples(r.obs), nsteps |-> r.nsteps,
+             born |-> [a \in ToSet(r.agents) |-> LET i == CHOOSE j \in DOMAIN r.born : r.born[j][1] = a IN r.born[i][2]]]
 IsEvent(e) == l <= Len(Tr) /\ Rec.ev = e /\ l' = l + 1 /\ UNCHANGED tid
 
 TraceInit == tid \in DOMAIN Traces /\ InitWith(CfgOf(Traces[tid][1])) /\ l = 2
